@@ -513,7 +513,12 @@ func runHistory(r *mon.Run, idx int, h history) (out outcome) {
 					if t0, ok := zombieSince[sp.Pid]; !ok {
 						zombieSince[sp.Pid] = time.Now()
 					} else if time.Since(t0) > zombieSlack {
-						stuck = sp
+						if meter.maxLag(t0, time.Now()) > stallLimit {
+							zombieSince[sp.Pid] = time.Now() // process stalled: start counting again
+							r.Event("skipped_process_stalled", 1)
+						} else {
+							stuck = sp
+						}
 					}
 				} else {
 					delete(zombieSince, sp.Pid)
@@ -617,7 +622,9 @@ func runHistory(r *mon.Run, idx int, h history) (out outcome) {
 		effGrace = 5 * time.Second
 	}
 	if !tLastAny.IsZero() {
-		if el := tReturn.Sub(tLastAny); el > effGrace+shutdownSlack {
+		if el := tReturn.Sub(tLastAny); el > effGrace+shutdownSlack && meter.maxLag(tLastAny, tReturn) > stallLimit {
+			r.Event("skipped_process_stalled", 1)
+		} else if el > effGrace+shutdownSlack {
 			key := "shutdown-overrun"
 			if ignAliveAtTeardown {
 				key = "shutdown-overrun-term-ignoring-child"
@@ -646,6 +653,10 @@ func runHistory(r *mon.Run, idx int, h history) (out outcome) {
 			case <-sp.gotTerm:
 				r.Event("sigterm_observed_by_child", 1)
 			default:
+				if meter.maxLag(tLastAny, time.Now()) > stallLimit {
+					r.Event("skipped_process_stalled", 1)
+					continue
+				}
 				viol("child-killed-without-sigterm", fmt.Sprintf("child pid %d traps TERM and reports it, grace is %v, but it died without ever seeing SIGTERM", sp.Pid, grace))
 			}
 		}
@@ -839,12 +850,16 @@ func genExhaustive(k int, rnd *rand.Rand) history {
 	return h
 }
 
+var meter *stallMeter
+
 func TestC39(t *testing.T) {
 	r := mon.Start(t, "C39")
 	defer r.Finish()
+	meter = startStallMeter()
+	defer close(meter.stop)
 	r.Rule("history = GOMAXPROCS 2-4, RecoverThreshold 0-3, ShutdownGracePeriod 50-200 ms (10 s in TERM-delivery histories, default 5 s in a few thorough ones), RecoverInterval 0/100/300 ms, a script of 0-6 CommandProducer behaviours {exit 0 / exit 1 after 30-150 ms, stay, ignore TERM, ignore TERM then exit, report TERM, producer error / nil / not started, OnChildSpawn error} followed by exit-1 fillers, optional OnMasterReady error; thorough additionally enumerates all scripts of length <= 4 over {exit 0, exit 1, ignore-TERM, spawn failure, hook error}. distinct = (G, threshold, interval on/off, cause of return, behaviours spawned, recoveries, TERM-ignoring child at teardown); non-trivial = at least one recovery, or a hook/spawn-failure return with live children to tear down")
 	r.Assume("children are real /bin/sh processes; /proc/<pid>/stat (state, ppid, starttime) identifies them; a child's scripted lifetime is a lower bound of its real one (sleep never returns early, Go timers never fire early)")
-	r.Assume("bounded liveness: a TERM-ignoring child sleeps 60 s, so a return later than grace + 8 s cannot be scheduling noise; a zombie older than 10 s means nobody waits for it; SIGTERM delivery is judged only with a 10 s grace period (the child needs ~20 ms to react)")
+	r.Assume("bounded liveness: a TERM-ignoring child sleeps 60 s, so a return later than grace + 8 s cannot be scheduling noise; a zombie older than 10 s means nobody waits for it; SIGTERM delivery is judged only with a 10 s grace period (the child needs ~20 ms to react); upper-bound judgements are skipped (counted) if the process heartbeat (20 ms ticks) was more than 1 s late in the judged window")
 	r.Assume("GOMAXPROCS is process-global and read once at the start of Prefork.prefork: histories are grouped by GOMAXPROCS value, each group runs in parallel inside this process with that value set, groups run one after the other; the value is restored at the end")
 	r.Assume("callbacks' documented order (OnMasterReady once, OnChildSpawn per child) is used by the monitor but not judged")
 
@@ -897,6 +912,7 @@ func TestC39(t *testing.T) {
 		// every master of this group has returned: none of its goroutines may be left
 		// (bounded liveness: a wait goroutine behind a sleeping child stays for >= 60 s)
 		var leaks map[int]string
+		tGroupDone := time.Now()
 		for t0 := time.Now(); ; time.Sleep(50 * time.Millisecond) {
 			leaks = leakedGoroutines()
 			n := 0
@@ -910,6 +926,10 @@ func TestC39(t *testing.T) {
 			}
 		}
 		r.Event("goroutine_profiles_checked", len(returned))
+		if len(leaks) > 0 && meter.maxLag(tGroupDone, time.Now()) > stallLimit {
+			r.Event("skipped_process_stalled", 1)
+			leaks = nil
+		}
 		for i, blk := range leaks {
 			if out, ok := returned[i]; ok {
 				r.Violation(i, "wait-goroutine-leaked", "goroutine started by prefork still exists "+goroutineSlack.String()+" after it returned:\n"+blk, out.payload())
@@ -917,6 +937,7 @@ func TestC39(t *testing.T) {
 		}
 	}
 	runtime.GOMAXPROCS(prev)
+	r.Set("worst_heartbeat_lag_ms", meter.worst().Milliseconds())
 	if !r.Replaying() {
 		r.Require("histories", n)
 		r.Require("children_checked_after_return", 2*n)
